@@ -125,6 +125,26 @@ Example C11_ex_behaviour :
      = GoPanic.
 Proof. vm_compute. repeat split. Qed.
 
+(* maps are values: with any number of bindings alive, an operation (literal, copy + index assignment, copy + del,
+   +, rest, range) only adds a binding; after every operation the content of EVERY binding - the operands, the
+   parent of a range / rest view, earlier results - is that of the reference store, where nothing ever changes *)
+Theorem C11_bindings_are_values : forall ops,
+  brun value value cmp_c [] ops
+  = match s_brun value value cmp_c [] ops with Some x => Val x | None => GoPanic end.
+Proof. exact (fun ops => brun_refines value value cmp_c cmp_c_is_weak_order ops [] (Forall_nil _)). Qed.
+
+Theorem C11_reference_bindings_persist : forall st o st',
+  s_bstep value value cmp_c st o = Some st' -> exists l, st' = st ++ [l].
+Proof. exact (s_bstep_extends value value cmp_c). Qed.
+
+Example C11_ex_bindings :
+  let i n := VInt n in
+  let l7 := [(i 1, i 1); (i 2, i 2); (i 3, i 3); (i 4, i 4); (i 5, i 5); (i 6, i 6); (i 7, i 7)] in
+  brun value value cmp_c [] [BLit _ _ l7; BRange _ _ 0%nat 0%nat 5%nat; BLit _ _ [(i 9, i 9)]; BAppend _ _ 1%nat 2%nat]
+  = Val [[l7]; [l7; firstn 5 l7]; [l7; firstn 5 l7; [(i 9, i 9)]];
+         [l7; firstn 5 l7; [(i 9, i 9)]; firstn 5 l7 ++ [(i 9, i 9)]]].
+Proof. vm_compute. reflexivity. Qed.
+
 Print Assumptions C11_invariant.
 Print Assumptions C11_operations_refine.
 Print Assumptions maps_are_finite_maps.
@@ -132,3 +152,5 @@ Print Assumptions C11_history_independent.
 Print Assumptions C11_insertion_order_irrelevant.
 Print Assumptions binary_search_is_linear.
 Print Assumptions C11_reference_is_finite_map.
+Print Assumptions C11_bindings_are_values.
+Print Assumptions C11_reference_bindings_persist.
